@@ -1,11 +1,12 @@
 /-
-  C17 — lexing the exporter's pieces of a skeleton type definition (type references, input
-  values, argument lists in both layouts, fields, implements lists, union members).
+  C17 — lexing the exporter's pieces of a type definition (type references, input values with
+  default values, deprecations and directive applications, argument lists in both layouts, fields,
+  implements lists, union members).
 -/
 import AGV.Lemmas.SdlSkeletonDefs
 import AGV.Lemmas.SdlDesc
 namespace AGV.Lemmas.SdlSkeleton
-open AGV.Core AGV.Core.PAst AGV.Core.Sdl AGV.Model.Sdl AGV.Spec.Literal AGV.Spec.Lex AGV.Spec.Parse AGV.Spec.SdlParse AGV.Lemmas.SdlLex
+open AGV.Core AGV.Core.PAst AGV.Core.Sdl AGV.Model.Sdl AGV.Spec.Literal AGV.Spec.Lex AGV.Spec.Parse AGV.Spec.SdlParse AGV.Lemmas.SdlLex AGV.Lemmas.SdlValue
 
 -- ------------------------------------------------------------------ lexing the exporter's pieces
 
@@ -65,10 +66,33 @@ theorem Lx_type (t : PType) (ht : WfType t) : ∀ (rest : Text) (ts : List Tok),
       have h3 := Lx.punct (c := '[') (by decide) h2
       simpa [typeText, typeToks, List.append_assoc] using h3
 
-theorem writeDeprecated_no : writeDeprecated Defects.none .no = [] := rfl
-theorem dirApps_nil : dirApps [] = [] := rfl
 theorem fedAttrs_off (o : Opts) (ho : o.federation = false) (a : Attrs) : fedAttrs Defects.none o a = [] := by
   simp [fedAttrs, ho]
+
+theorem dirsToks_append (a b : List DirApp) : dirsToks (a ++ b) = dirsToks a ++ dirsToks b := by
+  simp [dirsToks]
+
+theorem writeDeprecated_valEnd (d : Dep) (rest : Text) (hr : ValEnd rest) : ValEnd (writeDeprecated Defects.none d ++ rest) := by
+  cases d with
+  | no => simpa [writeDeprecated] using hr
+  | yes r => cases r <;> (simp only [writeDeprecated, s]; exact valEnd_ign ' ' _ (by decide))
+
+theorem dirApps_valEnd (ds : List DirApp) (rest : Text) (hr : ValEnd rest) : ValEnd (dirApps ds ++ rest) := by
+  cases ds with
+  | nil => simpa [dirApps] using hr
+  | cons d ds => simp only [dirApps, List.map_cons, List.flatten_cons, List.cons_append]; exact valEnd_ign ' ' _ (by decide)
+
+/-- what the exporter writes after an item of a plain export: the deprecation, then the custom
+    directive applications -/
+theorem itemApps_valEnd (a : Attrs) (rest : Text) (hr : ValEnd rest) :
+    ValEnd (writeDeprecated Defects.none a.dep ++ (dirApps a.dirs ++ rest)) :=
+  writeDeprecated_valEnd _ _ (dirApps_valEnd _ _ hr)
+
+theorem Lx_itemApps (a : Attrs) (ha : WfAttrs a) (rest : Text) (ts : List Tok) (hr : NameEnd rest) (h : Lx rest ts) :
+    Lx (writeDeprecated Defects.none a.dep ++ (dirApps a.dirs ++ rest)) (dirsToks (itemApps a) ++ ts) := by
+  have h1 := Lx_dirApps a.dirs ha.dirs rest ts hr h
+  have h2 := Lx_deprecated a.dep _ _ (dirApps_nameEnd a.dirs rest hr) h1
+  simpa [itemApps, dirsToks_append, List.append_assoc] using h2
 
 theorem Lx_optDesc (o : Opts) (level : Nat) (dsc : Option Text) (rest : Text) (ts : List Tok) (h : Lx rest ts) :
     Lx (optDescription Defects.none o level dsc ++ rest) (descToks dsc ++ ts) := by
@@ -76,24 +100,36 @@ theorem Lx_optDesc (o : Opts) (level : Nat) (dsc : Option Text) (rest : Text) (t
   | none => simpa [optDescription, descToks] using h
   | some d => simpa [optDescription, descToks] using Lx_description o level d rest ts h
 
-theorem Lx_inputValue (x : InputVal) (hx : SkelIv x) (rest : Text) (ts : List Tok) (hr : NameEnd rest)
-    (h : Lx rest ts) : Lx (writeInputValue Defects.none x ++ rest) (ivCore x ++ ts) := by
-  have h1 := Lx_type x.ty hx.ty rest ts hr h
-  have h2 : Lx (' ' :: (typeText x.ty ++ rest)) (typeToks x.ty ++ ts) := Lx.ign (by decide) h1
-  have h3 := Lx.nameP (n := x.name) (c := ':') hx.name (by decide) h2
-  simpa [writeInputValue, hx.default, hx.attrs.dep, writeDeprecated_no, ivCore, s, List.append_assoc] using h3
+theorem Lx_inputValue (o : Opts) (ho : o.federation = false) (x : InputVal) (hx : SkelIv x) (rest : Text) (ts : List Tok)
+    (hr : ValEnd rest) (h : Lx rest ts) :
+    Lx (writeInputValue Defects.none x ++ (fedAttrs Defects.none o x.a ++ (dirApps x.a.dirs ++ rest))) (ivCore x ++ ts) := by
+  have h0 := Lx_itemApps x.a hx.attrs rest ts hr.nameEnd h
+  have hve := itemApps_valEnd x.a rest hr
+  cases hdf : x.default with
+  | none =>
+    have h1 := Lx_type x.ty hx.ty _ _ hve.nameEnd h0
+    have h2 := Lx.ign (c := ' ') (by decide) h1
+    have h3 := Lx.nameP (n := x.name) (c := ':') hx.name (by decide) h2
+    simpa [writeInputValue, hdf, defaultToks, fedAttrs_off o ho, ivCore, s, List.append_assoc] using h3
+  | some v =>
+    have hv := Lx_value v (hx.default v hdf) _ _ hve h0
+    have hv' := Lx.ign (c := ' ') (by decide) (Lx.punct (c := '=') (by decide) (Lx.ign (c := ' ') (by decide) hv))
+    have h1 := Lx_type x.ty hx.ty _ _ (valEnd_ign ' ' _ (by decide)).nameEnd hv'
+    have h2 := Lx.ign (c := ' ') (by decide) h1
+    have h3 := Lx.nameP (n := x.name) (c := ':') hx.name (by decide) h2
+    simpa [writeInputValue, hdf, defaultToks, fedAttrs_off o ho, ivCore, s, List.append_assoc] using h3
 
-theorem writeArgs_nameEnd (o : Opts) (nm : Bool) (i : Nat) (args : List InputVal) (rest : Text) (hr : NameEnd rest) :
-    NameEnd (writeArgs Defects.none o nm (i + 1) args ++ rest) := by
+theorem writeArgs_valEnd (o : Opts) (nm : Bool) (i : Nat) (args : List InputVal) (rest : Text) (hr : ValEnd rest) :
+    ValEnd (writeArgs Defects.none o nm (i + 1) args ++ rest) := by
   cases args with
   | nil => simpa [writeArgs] using hr
   | cons a as =>
     simp only [writeArgs, Nat.add_one_ne_zero, ne_eq, not_false_eq_true, if_true, List.cons_append, List.nil_append,
       List.append_assoc]
-    exact nameEnd_of_ignored ',' _ (by decide)
+    exact valEnd_ign ',' _ (by decide)
 
 theorem Lx_args (o : Opts) (ho : o.federation = false) (nm : Bool) (args : List InputVal) (hargs : ∀ a ∈ args, SkelIv a) :
-    ∀ (i : Nat) (rest : Text) (ts : List Tok), NameEnd rest → Lx rest ts →
+    ∀ (i : Nat) (rest : Text) (ts : List Tok), ValEnd rest → Lx rest ts →
       Lx (writeArgs Defects.none o nm i args ++ rest) (ivsToks args ++ ts) := by
   induction args with
   | nil => intro i rest ts _ h; simpa [writeArgs, ivsToks] using h
@@ -101,10 +137,11 @@ theorem Lx_args (o : Opts) (ho : o.federation = false) (nm : Bool) (args : List 
     intro i rest ts hr h
     have ha := hargs a List.mem_cons_self
     have h1 := ih (fun x hx => hargs x (List.mem_cons_of_mem _ hx)) (i + 1) rest ts hr h
-    have h2 := Lx_inputValue a ha _ _ (writeArgs_nameEnd o nm i as rest hr) h1
+    have h2 := Lx_inputValue o ho a ha _ _ (writeArgs_valEnd o nm i as rest hr) h1
     -- the indentation before the argument
     have h3 : Lx ((if nm then tab o ++ tab o else if i ≠ 0 then [' '] else []) ++
-        (writeInputValue Defects.none a ++ (writeArgs Defects.none o nm (i + 1) as ++ rest))) (ivCore a ++ (ivsToks as ++ ts)) := by
+        (writeInputValue Defects.none a ++ (fedAttrs Defects.none o a.a ++ (dirApps a.a.dirs ++ (writeArgs Defects.none o nm (i + 1) as ++ rest)))))
+        (ivCore a ++ (ivsToks as ++ ts)) := by
       apply Lx.ws _ h2
       intro c hc
       split at hc
@@ -117,7 +154,7 @@ theorem Lx_args (o : Opts) (ho : o.federation = false) (nm : Bool) (args : List 
           | some d => '\n' :: writeDescription Defects.none o 2 d
           | none => []) ++
         ((if nm then tab o ++ tab o else if i ≠ 0 then [' '] else []) ++
-          (writeInputValue Defects.none a ++ (writeArgs Defects.none o nm (i + 1) as ++ rest))))
+          (writeInputValue Defects.none a ++ (fedAttrs Defects.none o a.a ++ (dirApps a.a.dirs ++ (writeArgs Defects.none o nm (i + 1) as ++ rest))))))
         (descToks a.a.desc ++ (ivCore a ++ (ivsToks as ++ ts))) := by
       cases a.a.desc with
       | none => simpa [descToks] using h3
@@ -134,8 +171,8 @@ theorem Lx_args (o : Opts) (ho : o.federation = false) (nm : Bool) (args : List 
           | some d => '\n' :: writeDescription Defects.none o 2 d
           | none => []) ++
         ((if nm then tab o ++ tab o else if i ≠ 0 then [' '] else []) ++
-          (writeInputValue Defects.none a ++ (writeArgs Defects.none o nm (i + 1) as ++ rest)))) := by
-      simp only [writeArgs, ha.attrs.dirs, dirApps_nil, fedAttrs_off o ho, List.append_nil, List.append_assoc]
+          (writeInputValue Defects.none a ++ (fedAttrs Defects.none o a.a ++ (dirApps a.a.dirs ++ (writeArgs Defects.none o nm (i + 1) as ++ rest)))))) := by
+      simp only [writeArgs, List.append_assoc]
       cases a.a.desc <;> rfl
     rw [e]
     have e2 : ivsToks (a :: as) ++ ts = descToks a.a.desc ++ (ivCore a ++ (ivsToks as ++ ts)) := by
@@ -151,27 +188,28 @@ theorem Lx_field (o : Opts) (ho : o.federation = false) (f : FieldDef) (hf : Ske
     (hnd : startsWith2Underscores f.name = false) (rest : Text) (ts : List Tok) (h : Lx rest ts) :
     Lx (exportField Defects.none o f ++ rest) (fieldToks o f ++ ts) := by
   have hnl : Lx ('\n' :: rest) ts := Lx.ign (by decide) h
-  have hty := Lx_type f.ty hf.ty _ _ (nameEnd_of_ignored '\n' rest (by decide)) hnl
-  have hsp : Lx (' ' :: (typeText f.ty ++ '\n' :: rest)) (typeToks f.ty ++ ts) := Lx.ign (by decide) hty
-  have hcol : Lx (':' :: ' ' :: (typeText f.ty ++ '\n' :: rest)) (.punct ':' :: (typeToks f.ty ++ ts)) :=
-    Lx.punct (by decide) hsp
+  have hap := Lx_itemApps f.a hf.attrs ('\n' :: rest) ts (nameEnd_of_ignored '\n' rest (by decide)) hnl
+  have hve := itemApps_valEnd f.a ('\n' :: rest) (valEnd_ign '\n' rest (by decide))
+  have hty := Lx_type f.ty hf.ty _ _ hve.nameEnd hap
+  have hsp := Lx.ign (c := ' ') (by decide) hty
+  have hcol := Lx.punct (c := ':') (by decide) hsp
   by_cases he : f.args = []
   · have h1 := Lx.name (n := f.name) hf.name (nameEnd_of_punct ':' _ (by decide)) hcol
     have h2 := Lx.ws (tab_ignored o) h1
     have h3 := Lx_optDesc o 1 f.a.desc _ _ h2
     have e : exportField Defects.none o f ++ rest =
-        optDescription Defects.none o 1 f.a.desc ++ (tab o ++ (f.name ++ ':' :: ' ' :: (typeText f.ty ++ '\n' :: rest))) := by
-      simp [exportField, hnd, ho, he, hf.attrs.dep, writeDeprecated_no, hf.attrs.dirs,
-        dirApps_nil, fedAttrs_off o ho, s, List.append_assoc]
+        optDescription Defects.none o 1 f.a.desc ++ (tab o ++ (f.name ++ ':' :: ' ' :: (typeText f.ty ++
+          (writeDeprecated Defects.none f.a.dep ++ (dirApps f.a.dirs ++ '\n' :: rest))))) := by
+      simp [exportField, hnd, ho, he, fedAttrs_off o ho, s, List.append_assoc]
     rw [e]
     simpa [fieldToks, fieldCore, he, List.append_assoc] using h3
   · have hne : f.args.isEmpty = false := by simpa using he
     have hsk : ∀ a ∈ sorted o.sortedArgs (·.name) f.args, SkelIv a := fun x hx => hf.args x ((sorted_mem _ _ _ _).mp hx)
     generalize hnm : (sorted o.sortedArgs (·.name) f.args).any (fun x => x.a.desc.isSome) = nm
-    have hpar : Lx (')' :: ':' :: ' ' :: (typeText f.ty ++ '\n' :: rest)) (.punct ')' :: .punct ':' :: (typeToks f.ty ++ ts)) :=
-      Lx.punct (by decide) hcol
-    have hpar' : Lx ((if nm then '\n' :: tab o else []) ++ ')' :: ':' :: ' ' :: (typeText f.ty ++ '\n' :: rest))
-        (.punct ')' :: .punct ':' :: (typeToks f.ty ++ ts)) := by
+    have hpar := Lx.punct (c := ')') (by decide) hcol
+    have hpar' : Lx ((if nm then '\n' :: tab o else []) ++ ')' :: ':' :: ' ' :: (typeText f.ty ++
+          (writeDeprecated Defects.none f.a.dep ++ (dirApps f.a.dirs ++ '\n' :: rest))))
+        (.punct ')' :: .punct ':' :: (typeToks f.ty ++ (dirsToks (itemApps f.a) ++ ts))) := by
       apply Lx.ws _ hpar
       intro c hc
       split at hc
@@ -179,20 +217,21 @@ theorem Lx_field (o : Opts) (ho : o.federation = false) (f : FieldDef) (hf : Ske
         · decide
         · exact tab_ignored o c hc
       · cases hc
-    have hne' : NameEnd ((if nm then '\n' :: tab o else []) ++ ')' :: ':' :: ' ' :: (typeText f.ty ++ '\n' :: rest)) := by
+    have hne' : ValEnd ((if nm then '\n' :: tab o else []) ++ ')' :: ':' :: ' ' :: (typeText f.ty ++
+          (writeDeprecated Defects.none f.a.dep ++ (dirApps f.a.dirs ++ '\n' :: rest)))) := by
       split
-      · exact nameEnd_of_ignored '\n' _ (by decide)
-      · exact nameEnd_of_punct ')' _ (by decide)
+      · exact valEnd_ign '\n' _ (by decide)
+      · exact valEnd_punct ')' _ (by decide)
     have hargs := Lx_args o ho nm _ hsk 0 _ _ hne' hpar'
     have h1 := Lx.nameP (n := f.name) (c := '(') hf.name (by decide) hargs
     have h2 := Lx.ws (tab_ignored o) h1
     have h3 := Lx_optDesc o 1 f.a.desc _ _ h2
     have e : exportField Defects.none o f ++ rest =
         optDescription Defects.none o 1 f.a.desc ++ (tab o ++ (f.name ++ '(' :: (writeArgs Defects.none o nm 0 (sorted o.sortedArgs (·.name) f.args) ++
-          ((if nm then '\n' :: tab o else []) ++ ')' :: ':' :: ' ' :: (typeText f.ty ++ '\n' :: rest))))) := by
+          ((if nm then '\n' :: tab o else []) ++ ')' :: ':' :: ' ' :: (typeText f.ty ++
+            (writeDeprecated Defects.none f.a.dep ++ (dirApps f.a.dirs ++ '\n' :: rest))))))) := by
       simp only [exportField, hnd, ho, Bool.false_and, Bool.or_false, Bool.false_eq_true, if_false,
-        hne, Bool.not_false, if_true, sortByName_sorted, hnm, hf.attrs.dep, writeDeprecated_no,
-        hf.attrs.dirs, dirApps_nil, fedAttrs_off o ho]
+        hne, Bool.not_false, if_true, sortByName_sorted, hnm, fedAttrs_off o ho]
       simp [s, List.append_assoc]
     rw [e]
     simpa [fieldToks, fieldCore, hne, List.append_assoc] using h3
